@@ -142,7 +142,7 @@ def check_trace(events, cfg, aborted):
                     if eff != ['close']:
                         cy['weird'].append(eff)
                     completed.append(cy)
-                    _judge_cycle(cy, sym, pending_trades, v, c, spot)
+                    _judge_cycle(cy, sym, pending_trades, v, c, spot, cfg.get('fee'))
                     cycle[sym] = None
                     if eff == ['close', 'open']:
                         cycle[sym] = {'side': 'long' if q > 0 else 'short', 'fills': [], 'weird': ['opened_by_flip'],
@@ -169,7 +169,7 @@ def check_trace(events, cfg, aborted):
     return viol, cnt
 
 
-def _judge_cycle(cy, sym, pending, v, c, spot):
+def _judge_cycle(cy, sym, pending, v, c, spot, fee_rate=None):
     c('cycles_completed')
     fills = cy['fills']
     if len(fills) >= 3:
@@ -213,6 +213,12 @@ def _judge_cycle(cy, sym, pending, v, c, spot):
     if 'flip_open' not in cy and t['orders'] != [f['o'] for f in fills]:
         v('trade_order_list_differs_from_fills' + suffix,
           f'trade lists orders {t["orders"]}, the cycle fills are {[f["o"] for f in fills]}', fills=fills[:10])
+    if fee_rate is not None and not spot and kind == 'plain' and isinstance(t.get('fee'), (int, float)):
+        # futures: the trade's fee is the fee rate on the notional of every fill of its cycle (spot charges the buy fee in base)
+        expf = fee_rate * (sum(f['qty'] * f['price'] for f in ent) + sum(f['qty'] * f['price'] for f in ext))
+        c('trade_fee_checks')
+        if abs(t['fee'] - expf) > 1e-9 * max(1.0, abs(expf)):
+            v('trade_fee_differs_from_fills', f'{sym} trade reports fee {t["fee"]}, its fills were charged {expf}', trade=t, fills=fills[:10])
     c('trades_judged')
 
 
@@ -229,6 +235,9 @@ def _session(job):
         sc['on_reduced'] = rng.choice([None, 'be', 'tp_rest'])
         sc['p_update'] = rng.choice([0.05, 0.2])
         sc['sl_oversize'] = rng.random() < 0.15
+        if rng.random() < 0.5:
+            # repeated MARKET reductions / market scale-ins from update_position
+            sc['update_kinds'] = list(sc['update_kinds']) + ['reduce_market', 'reduce_market'] + (['add_market'] if rng.random() < 0.4 else [])
         if forced:
             # wide exits: a position is usually still open when the session ends (forced close in _terminate)
             sc['sl'], sc['tp'] = 0.2, 0.2
@@ -302,7 +311,22 @@ def _history(job):
             o = w.submit(sym, side, 'MARKET', q, p, False)
             w.execute(o)
             hist.append(('open', side, q, p))
-            kind = job['pattern'] if cyc == 0 else rng.choice(['plain', 'oversize', 'flip', 'increase'])
+            kind = job['pattern'] if cyc == 0 else rng.choice(['plain', 'oversize', 'flip', 'increase', 'twin'])
+            if kind == 'twin':
+                # scale in with the same size at the same price, take half off twice at one price, close the rest
+                o = w.submit(sym, side, 'MARKET', q, p, False)
+                w.execute(o)
+                hist.append(('twin_increase', side, q, p))
+                for _ in range(2):
+                    o = w.submit(sym, opp, 'LIMIT', round(q / 2, 3), p + 5, True)
+                    w.execute(o)
+                hist.append(('twin_exits', opp, round(q / 2, 3), p + 5))
+                rest = abs(w.pos[sym].qty)
+                if rest:
+                    o = w.submit(sym, opp, 'STOP', rest, p - 3, True)
+                    w.execute(o)
+                w.tick()
+                continue
             if kind == 'increase':
                 o = w.submit(sym, side, 'MARKET', round(q / 2, 2), p + 1, False)
                 w.execute(o)
@@ -368,7 +392,7 @@ def make_jobs(tier, seed):
     rng = random.Random(60000 + seed)
     jobs = [{'kind': 'session', 'seed': rng.randrange(1 << 30), 'i': i} for i in range(260 if tier == 'quick' else 14000)]
     n = 600 if tier == 'quick' else 80000
-    subs = [{'seed': rng.randrange(1 << 30), 'i': i, 'pattern': ['plain', 'oversize', 'flip', 'increase'][i % 4]}
+    subs = [{'seed': rng.randrange(1 << 30), 'i': i, 'pattern': ['plain', 'oversize', 'flip', 'increase', 'twin'][i % 5]}
             for i in range(n)]
     jobs += [{'kind': 'batch', 'batch': subs[i:i + 25]} for i in range(0, n, 25)]
     return jobs
